@@ -224,6 +224,50 @@ Example C01_first_nonvacuous :
   JAbort [[[VDbl (QArith_base.Qmake 31 2); VInt 3]]] 1 FThrow.
 Proof. vm_compute. repeat split; reflexivity. Qed.
 
+(* ---------- 2-D columns (a vector per element of another collection) ---------- *)
+(* e.C1(b1)[.Where(p1)].Select(lambda o: e.C2(b2)[.Where(p2)].Select(lambda x: body)) is a column of the fragment
+   (ColVec2: C01_fragment_row and C01_query_job cover it - the second collection is retrieved, looped over and collected
+   in a local vector INSIDE the block of the outer loop, the local vector is pushed onto the column once per passing outer
+   element).  Its reference semantics is the nested LINQ expression, and the second bank is looked at only when an outer
+   element passes. *)
+Theorem C01_2d_column_is_nested_linq :
+  forall (ev : event) (c1 : collref) (g1 : guard) (c2 : collref) (g2 : guard) (body : bexp)
+         (f1 f2 : value -> bool) (g : value -> value) (l1 l2 : list value),
+  assoc_ss (c_ctype c1, c_bank c1) (ev_colls ev) = Some (VVec l1) ->
+  assoc_ss (c_ctype c2, c_bank c2) (ev_colls ev) = Some (VVec l2) ->
+  passes_total ev g1 l1 f1 -> passes_total ev g2 l2 f2 ->
+  (forall v, In v l2 -> f2 v = true -> db ev v body = ROk (g v)) ->
+  dcol ev (ColVec2 c1 g1 c2 g2 body) =
+  ROk (VVec (map (fun _ => VVec (map (fun v => conv (btype body) (g v)) (filter f2 l2))) (filter f1 l1))).
+Proof. exact vec2_col_linq. Qed.
+Print Assumptions C01_2d_column_is_nested_linq.
+Theorem C01_2d_column_inner_bank_is_lazy :
+  forall (ev : event) (c1 : collref) (g1 : guard) (c2 : collref) (g2 : guard) (body : bexp) (l1 : list value),
+  assoc_ss (c_ctype c1, c_bank c1) (ev_colls ev) = Some (VVec l1) ->
+  passes_total ev g1 l1 (fun _ => false) ->
+  dcol ev (ColVec2 c1 g1 c2 g2 body) = ROk (VVec []).
+Proof. exact vec2_col_lazy_inner. Qed.
+Print Assumptions C01_2d_column_inner_bank_is_lazy.
+
+Definition r2d : row :=
+  [("trk_pt", ColVec2 jets (GOne {| p_neg := false; p_op := ">"; p_l := PMeth "pt"; p_r := PInt 30 |}) trks GNone (BPa (PMeth "pt")));
+   ("n", ColScalar (ECount {| k_coll := jets; k_guard := GNone; k_agg := ACount |}))].
+Definition ev2d : event :=
+  {| ev_colls := [(("const xAOD::JetContainer*", "aj"), VVec [VObj 0; VObj 1; VObj 2]);
+                  (("const xAOD::TrackParticleContainer*", "t"), VVec [VObj 7; VObj 8])];
+     ev_meths := [((0, "pt"), VDbl (QArith_base.inject_Z 10)); ((1, "pt"), VDbl (QArith_base.inject_Z 31)); ((2, "pt"), VDbl (QArith_base.inject_Z 45));
+                  ((7, "pt"), VDbl (QArith_base.inject_Z 1)); ((8, "pt"), VDbl (QArith_base.inject_Z 2))] |}.
+(* no track bank at all, one jet below the cut: the column is empty, the job does not fail *)
+Definition ev2d_lazy : event :=
+  {| ev_colls := [(("const xAOD::JetContainer*", "aj"), VVec [VObj 0])]; ev_meths := [((0, "pt"), VDbl (QArith_base.inject_Z 10))] |}.
+Example C01_2d_nonvacuous :
+  row_bases_ok r2d = true /\
+  drow ev2d r2d = ROk [VVec [VVec [VDbl (QArith_base.inject_Z 1); VDbl (QArith_base.inject_Z 2)]; VVec [VDbl (QArith_base.inject_Z 1); VDbl (QArith_base.inject_Z 2)]]; VInt 3] /\
+  run_job (prog_q atlas {| q_filter := None; q_body := QRow r2d |} 1) [ev2d; ev2d_lazy] =
+  JDone [[[VVec [VVec [VDbl (QArith_base.inject_Z 1); VDbl (QArith_base.inject_Z 2)]; VVec [VDbl (QArith_base.inject_Z 1); VDbl (QArith_base.inject_Z 2)]]; VInt 3]];
+         [[VVec []; VInt 1]]].
+Proof. vm_compute. repeat split; reflexivity. Qed.
+
 (* ---------- CMS miniAOD ---------- *)
 (* The miniAOD job of a query is the CMS job read through tokens: one token per collection use, named before
    everything else, declared as a class member and initialised in the booking code (Model/FragQuery.v prog_q_mini;
